@@ -1516,8 +1516,10 @@ def ask_upb(ctx, dims, local, label, kind, expect=None, normalise=True):
     vl = []
     for f in fulls:
         v = f.real.copy() if np.all(f.imag == 0) else f.copy()
-        if normalise:
+        if normalise is True:
             v = v / np.linalg.norm(v)
+        elif isinstance(normalise, (int, float)) and not isinstance(normalise, bool):
+            v = v * float(normalise)      # the whole set rescaled by a power of two: still the same product vectors
         vl.append(v)
     vl0 = vl
     vl = present_obj(case_rng("c16/upb", list(dims), local, normalise), vl)     # the harness keeps vl0 for the witness check below
@@ -1564,6 +1566,8 @@ def run_upb(ctx):
     for name, dims, local in upb_families():
         ask_upb(ctx, dims, local, f"{name} (all vectors)", "yes", expect="yes", normalise=True)
         ask_upb(ctx, dims, local, f"{name} (all vectors, unnormalised integers)", "yes", expect="yes", normalise=False)
+        ask_upb(ctx, dims, local, f"{name} (all vectors, integers times 2^9)", "yes", expect="yes", normalise=512)
+        ask_upb(ctx, dims, local, f"{name} (all vectors, integers times 2^-9)", "yes", expect="yes", normalise=1.0 / 512)
         for _ in range(2):
             ask_upb(ctx, dims, local_transform(rng, dims, local), f"{name} (local signed permutations, reordered)", "yes", expect="yes")
         for drop in range(len(local)):
